@@ -62,8 +62,8 @@ ASSUMPTIONS = [
     "'inherited constant table' is covered for the table implied by the document id only; the CDT_LEN=1 form is not generated",
     "Reserved (0x00-0x03) and ARRP (0x16-0x27) document ids have no token tables in the library and are outside the domain",
     "termination bound: 20 s of CPU time per parse in-process (signal.setitimer, ITIMER_VIRTUAL - independent of machine load); after a first time-out in a worker process the bound "
-    "for later cases of that worker is 1 s so that shrinking a hang stays feasible (both >= 3 orders of magnitude above the "
-    "normal cost)",
+    "for later cases of that worker is 1 s, after four time-outs 0.25 s, so that a run against a hanging tree and the "
+    "shrinking of a hang stay feasible (all >= 200 x the normal cost)",
     "lookup API: attribute values are integers (never None); tokens whose definition requires an attribute value always get "
     "one; get_token by name is only required to return *a* token of that name (which one is the library's choice)",
     "re-serialising a parsed damaged buffer may raise AssertionError / ValueError / OverflowError (documented range "
@@ -145,12 +145,15 @@ class _Timeout(BaseException):
     pass
 
 
-_TIMEOUT_SEEN = False
+_TIMEOUT_SEEN = 0  # number of time-outs seen in this process
 
 
 def _bound() -> float:
+    """CPU seconds allowed for one parse: 20 for the first time-out of a process, 1 for the next three, then 0.25 (the
+    bound is CPU time, so machine load does not matter; 0.25 s is still > 200 x the normal cost) - keeps a run against a
+    tree that really hangs, and the shrinking of such a failure, feasible"""
     full = float(os.environ.get("VP_PARSE_TIMEOUT_S", "20"))
-    return min(full, 1.0) if _TIMEOUT_SEEN else full
+    return full if _TIMEOUT_SEEN == 0 else min(full, 1.0) if _TIMEOUT_SEEN <= 3 else min(full, 0.25)
 
 
 def bounded(fn, *a, allowed=(), clause="no_unexpected_exception"):
@@ -168,7 +171,7 @@ def bounded(fn, *a, allowed=(), clause="no_unexpected_exception"):
     try:
         return call(fn, *a, allowed=allowed, clause=clause)
     except _Timeout:
-        _TIMEOUT_SEEN = True
+        _TIMEOUT_SEEN += 1
         raise Fail("parse_terminates", f"no result after {secs} s of CPU time", "returns or raises (normal cost < 1 ms)")
     finally:
         signal.setitimer(signal.ITIMER_VIRTUAL, 0)
